@@ -380,7 +380,7 @@ func buildBody(stream string, g gwcfg, in bodyIn, s *script, rep reply, gzipped 
 		body = emit.App("BRaw", textCoq(string(rep.body), in.big))
 	}
 	obs := fmt.Sprintf("{| c_status := %s; c_body := %s |}", emit.Z(int64(rep.status)), body)
-	term := emit.App("CBody", g.router, beCoq(g.be), emit.Bool(g.coll), oeCoq(g.oe), emit.Nat(g.cc), in.coq(g.be), obs)
+	term := emit.App("CBody", g.router, beCoq(g.be), emit.Bool(g.coll), oeCoq(g.oe), emit.Nat(g.cc), xCoq(g), in.coq(g.be), obs)
 	kind := "text"
 	if in.bad {
 		kind = "bad"
@@ -389,7 +389,7 @@ func buildBody(stream string, g gwcfg, in bodyIn, s *script, rep reply, gzipped 
 	}
 	js := map[string]interface{}{
 		"stream": stream, "router": g.router, "encoding": g.be, "is_collection": g.coll, "output_encoding": g.oe,
-		"concurrent_calls": g.cc, "raw_transport": g.raw, "gzip": gzipped, "gzip_members": s.members, "forward_accept_encoding": g.fwdAE, "backend_status": status, "chunks": len(s.chunks),
+		"concurrent_calls": g.cc, "raw_transport": g.raw, "gzip": gzipped, "gzip_members": s.members, "forward_accept_encoding": g.fwdAE, "passthrough_plugin": g.plug, "explicit_empty_lists": g.empty, "backend_status": status, "chunks": len(s.chunks),
 		"backend_body": clip(in.text), "kind": kind,
 		"observed": map[string]interface{}{"status": rep.status, "body": clip(rep.body), "error": rep.err, "content_type": rep.header.Get("Content-Type")},
 	}
@@ -398,6 +398,12 @@ func buildBody(stream string, g gwcfg, in bodyIn, s *script, rep reply, gzipped 
 	rec.counts = append(rec.counts, fmt.Sprintf("config:%s/coll=%v/%s", g.be, g.coll, g.oe))
 	rec.counts = append(rec.counts, fmt.Sprintf("cc:%d", g.cc))
 	rec.counts = append(rec.counts, "kind:"+kind)
+	if g.plug != "" {
+		rec.counts = append(rec.counts, "passthrough-plugin:"+g.plug)
+	}
+	if g.empty {
+		rec.counts = append(rec.counts, "explicit-empty-lists")
+	}
 	if gzipped {
 		rec.counts = append(rec.counts, "gzip")
 		if s.members > 1 {
@@ -470,6 +476,11 @@ func noopCaseG(stream string, g gwcfg, s *script) {
 	emitNoop(stream, g, s, ref, wd.call(g, s))
 }
 
+func xCoq(g gwcfg) string {
+	pl := map[string]string{"": "PNone", "endpoint": "PEndpoint", "backend": "PBackend", "both": "PBoth"}[g.plug]
+	return fmt.Sprintf("{| x_plugin := %s; x_empty_lists := %s |}", pl, emit.Bool(g.empty))
+}
+
 func efCoq(ef string) string {
 	switch ef {
 	case "details":
@@ -497,7 +508,7 @@ func buildNoop(stream string, g gwcfg, s *script, ref, rep reply) caseRec {
 	got := flatten(rep.header)
 	obs := fmt.Sprintf("{| n_status := %s; n_headers := %s; n_body := %s; n_err := %s |}",
 		emit.Z(int64(rep.status)), hdrCoq(got), chunksCoq(cutLike(s.chunks, rep.body)), emit.Bool(rep.err != ""))
-	term := emit.App("CNoop", router, emit.Nat(cc), efCoq(g.ef), emit.Z(int64(s.status)), hdrCoq(sent), chunksCoq(s.chunks), obs)
+	term := emit.App("CNoop", router, emit.Nat(cc), efCoq(g.ef), xCoq(g), emit.Z(int64(s.status)), hdrCoq(sent), chunksCoq(s.chunks), obs)
 	sig := ""
 	if cc > 1 {
 		sig = "noop-concurrent-calls"
@@ -509,7 +520,7 @@ func buildNoop(stream string, g gwcfg, s *script, ref, rep reply) caseRec {
 		}
 	}
 	js := map[string]interface{}{
-		"stream": stream, "router": router, "encoding": "no-op", "concurrent_calls": cc, "raw_transport": raw, "backend_extra_config": g.ef, "forward_accept_encoding": g.fwdAE, "gzip_members": s.members,
+		"stream": stream, "router": router, "encoding": "no-op", "concurrent_calls": cc, "raw_transport": raw, "backend_extra_config": g.ef, "passthrough_plugin": g.plug, "forward_accept_encoding": g.fwdAE, "gzip_members": s.members,
 		"backend_status": s.status, "backend_headers": sent, "body_bytes": s.total(), "chunks": len(s.chunks), "first_chunk_sizes": sizes,
 		"fixed_length": s.fixedLen, "body_head": clip(head(s.body(), 64)),
 		"observed": map[string]interface{}{"status": rep.status, "headers": got, "body_bytes": len(rep.body), "error": rep.err,
@@ -535,6 +546,9 @@ func buildNoop(stream string, g gwcfg, s *script, ref, rep reply) caseRec {
 	}
 	if g.ef != "" {
 		rec.counts = append(rec.counts, "noop-extra_config:return_error_"+g.ef)
+	}
+	if g.plug != "" {
+		rec.counts = append(rec.counts, "passthrough-plugin:"+g.plug)
 	}
 	if g.fwdAE {
 		rec.counts = append(rec.counts, "noop-forward-accept-encoding")
@@ -761,7 +775,7 @@ func main() {
 						continue
 					}
 					raw := r.Bool()
-					bodyCase("corpus", gwcfg{rt, c.be, c.coll, c.oe, cc, raw, false, "", false}, docIn(d, r, style{ws: r.Bool(), escapes: r.Intn(3)}), r, r.Chance(1, 4), 200+r.Intn(2), r.Intn(3))
+					bodyCase("corpus", gwcfg{rt, c.be, c.coll, c.oe, cc, raw, false, "", false, "", false}, docIn(d, r, style{ws: r.Bool(), escapes: r.Intn(3)}), r, r.Chance(1, 4), 200+r.Intn(2), r.Intn(3))
 				}
 			}
 		}
@@ -770,7 +784,7 @@ func main() {
 		for j, rt := range routers {
 			cs := forKind(kindOf(d))
 			c := cs[(i+j)%len(cs)]
-			bodyCase("corpus", gwcfg{rt, c.be, c.coll, c.oe, 1, j == 0, false, "", false}, docIn(d, r, style{}), r, true, 200, 2*j)
+			bodyCase("corpus", gwcfg{rt, c.be, c.coll, c.oe, 1, j == 0, false, "", false, "", false}, docIn(d, r, style{}), r, true, 200, 2*j)
 		}
 	}
 	// F-C13 (recorded finding): no-op endpoint with concurrent calls, large chunked body
@@ -805,6 +819,30 @@ func main() {
 				}
 				noopCaseG("corpus", noopG(rt, k%2 == 0, ef, false), &script{status: st, headers: headerSets[1+k%3], chunks: chunkBody(b, r, k%4), fixedLen: k%3 == 0})
 			}
+		}
+	}
+	// glue: response-modifier plugins that hand back what they got (endpoint / backend / both) in front
+	// of a no-op backend answering other statuses than 200, and explicitly empty allow / deny / mapping
+	{
+		for _, rt := range routers {
+			for pi, pl := range []string{"endpoint", "backend", "both"} {
+				for k, st := range []int{201, 404, 503, 200, 207, 302} {
+					g := noopG(rt, (k+pi)%2 == 0, "", false)
+					g.plug = pl
+					noopCaseG("corpus", g, &script{status: st, headers: headerSets[1+(k+pi)%3], chunks: chunkBody(randBytes(r, []int{128 * 1024, 300, 0}[k%3], 1), r, k%4), fixedLen: k%3 == 1})
+				}
+			}
+			ds := corpusDocs()
+			for k, d := range []interface{}{ds[2], ds[7], ds[10], ds[16], ds[0]} {
+				for _, c := range forKind(kindOf(d)) {
+					g := gwcfg{router: rt, be: c.be, coll: c.coll, oe: c.oe, cc: 1 + k%2, raw: k%2 == 0, plug: []string{"", "endpoint", "backend", "both"}[k%4], empty: true}
+					bodyCase("corpus", g, docIn(d, r, style{ws: true, escapes: 1}), r, k == 1, 200+k%2, k%3)
+					g.empty, g.plug = false, "both"
+					bodyCase("corpus", g, docIn(d, r, style{}), r, false, 200, 0)
+				}
+			}
+			g := gwcfg{router: rt, be: "string", oe: "string", cc: 1, empty: true, plug: "endpoint"}
+			bodyCase("corpus", g, bodyIn{text: []byte("text through an observer, explicit empty lists")}, r, false, 200, 0)
 		}
 	}
 	// gzip bodies that reach lura itself: the endpoint forwards the client's Accept-Encoding: gzip (or the
@@ -857,20 +895,20 @@ func main() {
 		for _, rt := range routers {
 			for _, cc := range []int{1, 2} {
 				for _, d := range objSeq {
-					bodyCase("reuse-seq", gwcfg{rt, "json", false, "json", cc, false, false, "", false}, docIn(d, r, style{}), r, false, 200, 0)
+					bodyCase("reuse-seq", gwcfg{rt, "json", false, "json", cc, false, false, "", false, "", false}, docIn(d, r, style{}), r, false, 200, 0)
 				}
 				for _, d := range anySeq {
-					bodyCase("reuse-seq", gwcfg{rt, "safejson", false, "json", cc, true, false, "", false}, docIn(d, r, style{}), r, cc == 2, 200, 1)
+					bodyCase("reuse-seq", gwcfg{rt, "safejson", false, "json", cc, true, false, "", false, "", false}, docIn(d, r, style{}), r, cc == 2, 200, 1)
 				}
 			}
 			for _, d := range arrSeq {
-				bodyCase("reuse-seq", gwcfg{rt, "json", true, "json-collection", 1, false, false, "", false}, docIn(d, r, style{}), r, false, 201, 0)
+				bodyCase("reuse-seq", gwcfg{rt, "json", true, "json-collection", 1, false, false, "", false, "", false}, docIn(d, r, style{}), r, false, 201, 0)
 			}
 			for _, d := range arrSeq {
-				bodyCase("reuse-seq", gwcfg{rt, "json", true, "json", 1, false, false, "", false}, docIn(d, r, style{}), r, false, 200, 0)
+				bodyCase("reuse-seq", gwcfg{rt, "json", true, "json", 1, false, false, "", false, "", false}, docIn(d, r, style{}), r, false, 200, 0)
 			}
 			for _, t := range []string{"first text, rather long, 0123456789", "", "%d %s", "second", "\x00\xff", "first text, rather long, 0123456789"} {
-				bodyCase("reuse-seq", gwcfg{rt, "string", false, "string", 1, false, false, "", false}, bodyIn{text: []byte(t)}, r, false, 200, 0)
+				bodyCase("reuse-seq", gwcfg{rt, "string", false, "string", 1, false, false, "", false, "", false}, bodyIn{text: []byte(t)}, r, false, 200, 0)
 			}
 			for _, raw := range []bool{false, true} {
 				seq := []*script{
@@ -905,12 +943,12 @@ func main() {
 			kind int // 0 objects, 1 arrays, 2 any, 3 text, 4 no-op
 		}
 		confs := []cconf{
-			{gwcfg{"Gin", "json", false, "json", 1, false, true, "", false}, 0},
-			{gwcfg{"Mux", "json", false, "json", 2, true, true, "", false}, 0},
-			{gwcfg{"Gin", "safejson", false, "json", 1, true, true, "", false}, 2},
-			{gwcfg{"Mux", "json", true, "json-collection", 1, false, true, "", false}, 1},
-			{gwcfg{"Mux", "string", false, "string", 1, false, true, "", false}, 3},
-			{gwcfg{"Gin", "string", false, "json", 1, false, true, "", false}, 3},
+			{gwcfg{"Gin", "json", false, "json", 1, false, true, "", false, "", false}, 0},
+			{gwcfg{"Mux", "json", false, "json", 2, true, true, "", false, "", false}, 0},
+			{gwcfg{"Gin", "safejson", false, "json", 1, true, true, "", false, "", false}, 2},
+			{gwcfg{"Mux", "json", true, "json-collection", 1, false, true, "", false, "", false}, 1},
+			{gwcfg{"Mux", "string", false, "string", 1, false, true, "", false, "", false}, 3},
+			{gwcfg{"Gin", "string", false, "json", 1, false, true, "", false, "", false}, 3},
 			{gwcfg{router: "Gin", be: "no-op", oe: "no-op", cc: 1, raw: false, byID: true}, 4},
 			{gwcfg{router: "Mux", be: "no-op", oe: "no-op", cc: 1, raw: true, byID: true}, 4},
 		}
@@ -1014,7 +1052,7 @@ func main() {
 							if be == "string" {
 								in.isDoc = false
 							}
-							bodyCase("scope", gwcfg{rt, be, coll, oe, cc, false, false, "", false}, in, r, false, 200, 0)
+							bodyCase("scope", gwcfg{rt, be, coll, oe, cc, false, false, "", false, "", false}, in, r, false, 200, 0)
 						}
 					}
 				}
@@ -1031,6 +1069,9 @@ func main() {
 			for _, ef := range []string{"", "details", "code"} {
 				noopCaseG("scope", noopG(rt, i%2 == 0, ef, false), &script{status: st, headers: headerSets[i%len(headerSets)], chunks: chunkBody(b, r, i%4), fixedLen: i%3 == 0})
 			}
+			gp := noopG(rt, i%2 == 1, "", false)
+			gp.plug = []string{"endpoint", "backend", "both"}[i%3]
+			noopCaseG("scope", gp, &script{status: st, headers: headerSets[i%len(headerSets)], chunks: chunkBody(b, r, i%4), fixedLen: i%3 == 0})
 		}
 	}
 
@@ -1049,8 +1090,10 @@ func main() {
 		}
 		cs := forKind(kindOf(d))
 		c := cs[rr.Intn(len(cs))]
-		g := gwcfg{routers[rr.Intn(2)], c.be, c.coll, c.oe, 1 + rr.Intn(3), rr.Bool(), false, "", false}
+		g := gwcfg{routers[rr.Intn(2)], c.be, c.coll, c.oe, 1 + rr.Intn(3), rr.Bool(), false, "", false, "", false}
 		g.fwdAE = !g.raw && rr.Chance(1, 3)
+		g.empty = rr.Chance(1, 4)
+		g.plug = []string{"", "", "", "", "endpoint", "backend", "both", ""}[rr.Intn(8)]
 		bodyCase("random", g, docIn(d, rr, style{ws: rr.Bool(), escapes: rr.Intn(3)}), rr, rr.Chance(1, 5), 200+rr.Intn(2), rr.Intn(3))
 	}
 	// deep nesting 1..64
@@ -1065,7 +1108,7 @@ func main() {
 			d := deepDoc(rr, depth, top)
 			cs := forKind(kindOf(d))
 			c := cs[rr.Intn(len(cs))]
-			bodyCase("deep", gwcfg{routers[(depth+k)%2], c.be, c.coll, c.oe, 1 + rr.Intn(3), rr.Bool(), false, "", false}, docIn(d, rr, style{ws: rr.Bool(), escapes: rr.Intn(3)}), rr, rr.Chance(1, 5), 200, rr.Intn(3))
+			bodyCase("deep", gwcfg{routers[(depth+k)%2], c.be, c.coll, c.oe, 1 + rr.Intn(3), rr.Bool(), false, "", false, "", false}, docIn(d, rr, style{ws: rr.Bool(), escapes: rr.Intn(3)}), rr, rr.Chance(1, 5), 200, rr.Intn(3))
 		}
 	}
 	// string encoding: arbitrary bytes to the string render, valid UTF-8 to the json render
@@ -1095,7 +1138,7 @@ func main() {
 				oe = "json"
 			}
 		}
-		g := gwcfg{routers[rr.Intn(2)], "string", rr.Bool(), oe, 1 + rr.Intn(3), rr.Bool(), false, "", false}
+		g := gwcfg{routers[rr.Intn(2)], "string", rr.Bool(), oe, 1 + rr.Intn(3), rr.Bool(), false, "", false, "", false}
 		bodyCase("string", g, bodyIn{text: text, big: big}, rr, rr.Chance(1, 6), 200+rr.Intn(2), rr.Intn(3))
 	}
 	// no-op: body sizes 0 B .. 512 KiB in flushed chunks, statuses, header sets
@@ -1145,7 +1188,7 @@ func main() {
 	bads := [][]byte{[]byte(""), []byte("{"), []byte(`{"a":1`), []byte(`{"a":}`), []byte(`[1,2`), []byte("nul"), []byte(`{"a":01}`), []byte(`{'a':1}`), []byte("\xff\xfe"), []byte(`{"a":1e}`), []byte(`"unterminated`), []byte(`{"a":"\ud800"`)}
 	for i, b := range bads {
 		for _, c := range []conf{{"json", false, "json"}, {"json", true, "json"}, {"safejson", false, "json"}} {
-			bodyCase("malformed", gwcfg{routers[i%2], c.be, c.coll, c.oe, 1 + i%3, i%2 == 0, false, "", false}, bodyIn{text: b, bad: true}, r, false, 200, i%3)
+			bodyCase("malformed", gwcfg{routers[i%2], c.be, c.coll, c.oe, 1 + i%3, i%2 == 0, false, "", false, "", false}, bodyIn{text: b, bad: true}, r, false, 200, i%3)
 		}
 	}
 
